@@ -163,6 +163,7 @@ class SyncObj(object):
         self.__raftLog = createJournal(self.__conf.journalFile)
         if len(self.__raftLog) == 0:
             self.__raftLog.add(_bchr(_COMMAND_TYPE.NO_OP), 1, self.__raftCurrentTerm)
+        self.__raftCurrentTerm, self.__votedForNodeId = self.__raftLog.getTermAndVote()
         self.__raftCommitIndex = self.__raftLog.getRaftCommitIndex()
         self.__raftLastApplied = 1
         self.__raftNextIndex = {}
@@ -586,6 +587,7 @@ class SyncObj(object):
                 self.__setState(_RAFT_STATE.CANDIDATE)
                 self.__raftCurrentTerm += 1
                 self.__votedForNodeId = self.__selfNode.id
+                self.__raftLog.setTermAndVote(self.__raftCurrentTerm, self.__votedForNodeId)
                 self.__votesCount = 1
                 for node in self.__otherNodes:
                     self.__transport.send(node, {
@@ -873,6 +875,7 @@ class SyncObj(object):
             if message['term'] > self.__raftCurrentTerm:
                 self.__raftCurrentTerm = message['term']
                 self.__votedForNodeId = None
+                self.__raftLog.setTermAndVote(self.__raftCurrentTerm, self.__votedForNodeId)
                 self.__setState(_RAFT_STATE.FOLLOWER)
                 self.__raftLeader = None
 
@@ -889,6 +892,7 @@ class SyncObj(object):
                         return
 
                     self.__votedForNodeId = node.id
+                    self.__raftLog.setTermAndVote(self.__raftCurrentTerm, self.__votedForNodeId)
 
                     self.__raftElectionDeadline = monotonicTime() + self.__generateRaftTimeout()
                     self.__transport.send(node, {
@@ -904,6 +908,7 @@ class SyncObj(object):
             if message['term'] > self.__raftCurrentTerm:
                 self.__raftCurrentTerm = message['term']
                 self.__votedForNodeId = None
+                self.__raftLog.setTermAndVote(self.__raftCurrentTerm, self.__votedForNodeId)
             self.__setState(_RAFT_STATE.FOLLOWER)
             newEntries = message.get('entries', [])
             serialized = message.get('serialized', None)
